@@ -35,6 +35,10 @@ def cases(tier, seed):
         for k in range(K):
             d = dict(c); d["chunk"] = [k, K]
             out.append(d)
+    if tier == "thorough":       # real AMReX output: a population the generator does not produce
+        for a in ("plt1_Y", "plt2_F"):
+            for k in range(8):
+                out.append({"asset": a, "sel_seed": seed * 19 + k, "pairs": 6, "chunk": [k, 8], "sample": 80})
     return out
 
 
@@ -65,15 +69,29 @@ def run_case(case, work, rec):
     from amr_kitchen.taste import Taster
     k, K = case["chunk"]
     rng = random.Random(case["sel_seed"] * 101 + k)
-    m, path = workload.build(case, work)
-    digest = common.sha(case["gen"])
-    rec.sample({"plotfile": gen.describe(m)})
-    inf = mutate.info(path)
-    finest = m.nlevels - 1
-    nf = m.nfields
+    if "asset" in case:
+        import shutil
+        path = os.path.join(work, case["asset"])
+        shutil.copytree(os.path.join(common.REPO, "test_assets", case["asset"]), path)
+        digest = case["asset"]
+        inf = mutate.info(path)
+        finest = len(inf["levels"]) - 1
+        nf = len(inf["header"]["names"])
+        ndims = inf["ndims"]
+    else:
+        m, path = workload.build(case, work)
+        digest = common.sha(case["gen"])
+        rec.sample({"plotfile": gen.describe(m)})
+        inf = mutate.info(path)
+        finest = m.nlevels - 1
+        nf = m.nfields
+        ndims = m.ndims
     tol = mutate.sites_c20(inf)
     hard = mutate.sites_c04(inf)
     sites = [("tol", s) for s in tol] + [("c04", s) for s in hard]
+    if "asset" in case:
+        sites = random.Random(11).sample(sites, len(sites))[k::K][:case["sample"]]
+        k, K = 0, 1
     dst = os.path.join(work, "mut")
 
     def one(muts, kinds):
@@ -109,7 +127,7 @@ def run_case(case, work, rec):
         for lv in range(L + 1):
             ldir = inf["levels"][lv]["dir"].replace(path, dst)
             try:
-                idx, fod = strict.lenient_cell_h(os.path.join(ldir, "Cell_H"), m.ndims)
+                idx, fod = strict.lenient_cell_h(os.path.join(ldir, "Cell_H"), ndims)
             except Exception:
                 rec.undecided("accepted level header outside the lenient grammar")
                 return
